@@ -86,7 +86,8 @@ fn main() {
         };
         std::process::exit(code);
     }
-    let run = Run::new(&id, &tier);
+    let run: &'static Run = Box::leak(Box::new(Run::new(&id, &tier)));
+    report::start_watchdog(run);
     let outcome = std::panic::catch_unwind(std::panic::AssertUnwindSafe(|| match id.as_str() {
         "C01" => c01::run(c01::Mode::C01, &run),
         "C08" => c01::run(c01::Mode::C08, &run),
